@@ -280,3 +280,42 @@ func Canonical(p *Packet) []byte {
 	}
 	return b
 }
+
+// Diff returns "" when two reference packets are equal, else the first difference.
+func (p *Packet) Diff(q *Packet) string {
+	switch {
+	case p.Op != q.Op:
+		return fmt.Sprintf("op %d vs %d", p.Op, q.Op)
+	case p.HType != q.HType:
+		return fmt.Sprintf("htype %d vs %d", p.HType, q.HType)
+	case p.Hops != q.Hops:
+		return fmt.Sprintf("hops %d vs %d", p.Hops, q.Hops)
+	case p.Xid != q.Xid:
+		return fmt.Sprintf("xid %x vs %x", p.Xid, q.Xid)
+	case p.Secs != q.Secs:
+		return fmt.Sprintf("secs %d vs %d", p.Secs, q.Secs)
+	case p.Flags != q.Flags:
+		return fmt.Sprintf("flags %x vs %x", p.Flags, q.Flags)
+	case p.CI != q.CI, p.YI != q.YI, p.SI != q.SI, p.GI != q.GI:
+		return fmt.Sprintf("addresses %v %v %v %v vs %v %v %v %v", p.CI, p.YI, p.SI, p.GI, q.CI, q.YI, q.SI, q.GI)
+	case !bytes.Equal(p.CHAddr, q.CHAddr):
+		return fmt.Sprintf("chaddr %x vs %x", p.CHAddr, q.CHAddr)
+	case p.SName != q.SName:
+		return fmt.Sprintf("sname %q vs %q", p.SName, q.SName)
+	case p.File != q.File:
+		return fmt.Sprintf("file %q vs %q", p.File, q.File)
+	}
+	if len(p.Opts) != len(q.Opts) {
+		return fmt.Sprintf("%d options vs %d", len(p.Opts), len(q.Opts))
+	}
+	for k, v := range p.Opts {
+		w, ok := q.Opts[k]
+		if !ok {
+			return fmt.Sprintf("option %d missing", k)
+		}
+		if !bytes.Equal(v, w) {
+			return fmt.Sprintf("option %d: %x vs %x", k, v, w)
+		}
+	}
+	return ""
+}
